@@ -21,7 +21,7 @@
 (***************************************************************************)
 EXTENDS Fds, RedirAbs, Json
 
-CONSTANTS Cfg,     \* name of the scenario family (see Scenarios)
+CONSTANTS Cfg,     \* name of the configuration (see Parts, Fam)
           Bug,     \* "none" or the name of a wrong action
           Sim      \* how open() orders EMFILE and its side effects, which POSIX leaves
                    \* open: TRUE = create/truncate first (VirtualSystem), FALSE = EMFILE first
@@ -51,8 +51,8 @@ Files0 == [p \in {"a", "b", "m", "d", "t", "si", "so", "se", "s"} |->
 
 FdE(id) == [id |-> id, cx |-> FALSE]
 Std == (0 :> FdE(0)) @@ (1 :> FdE(1)) @@ (2 :> FdE(2))
-\* (VirtualSystem opens its /dev/stdout and /dev/stderr with O_APPEND)
-StdOfd == (0 :> NewOfd("si", TRUE, TRUE, FALSE, <<>>)) @@ (1 :> NewOfd("so", TRUE, TRUE, TRUE, <<>>))
+\* (VirtualSystem opens its three standard descriptors with O_APPEND)
+StdOfd == (0 :> NewOfd("si", TRUE, TRUE, TRUE, <<>>)) @@ (1 :> NewOfd("so", TRUE, TRUE, TRUE, <<>>))
           @@ (2 :> NewOfd("se", TRUE, TRUE, TRUE, <<>>))
 
 \* initial descriptor tables
@@ -96,7 +96,7 @@ Small   == Alpha({1, 2}, {"out", "app"}, {"a", "m"}, {}, {"closeout"})
            \cup Alpha({0}, {"in", "dupin"}, {"m"}, {3, 10}, {"here"})
 Mid     == Alpha({1, 3}, AllOps, {"a", "m", "d"}, {1, 2, 3, 4, 10}, {"closeout", "here"})
            \cup Alpha({0}, {"in", "rw", "dupin"}, {"a", "m"}, {3, 5, 10}, {"closein", "here"})
-Lim1    == Alpha({1, 5}, AllOps, {"a", "m"}, {1, 4, 10}, {"closeout", "here"})
+Lim1    == Alpha({1, 3, 5}, AllOps, {"a", "m"}, {1, 4, 10}, {"closeout", "here"})
 
 AllKinds  == {"special", "builtin", "function", "group", "subshell", "notfound", "empty", "exec"}
 CoreKinds == {"builtin", "special", "exec", "empty"}
@@ -118,46 +118,50 @@ Family(inits, ncs, lims, kinds, both, lists) ==
 
 All4   == {"std", "x35", "full", "int"}
 
-RECURSIVE Fam(_)
+\* Scenario families.  (A configuration is a set of families rather than their
+\* union: TLC's union of two large enumerated sets is quadratic.)
 Fam(c) ==
   \* family of the negative configurations (Bug # "none")
   CASE c = "neg"  -> Family({"std", "x35"}, BOOLEAN, {NoLimit}, {"builtin", "exec"}, FALSE,
-                              Seq1(Small \cup Alpha({1}, {"clob"}, {"a"}, {}, {})) \cup Seq2(Small, Small))
+                            Seq1(Small \cup Alpha({1}, {"clob"}, {"a"}, {}, {})) \cup Seq2(Small, Small))
     \* quick -----------------------------------------------------------------
     \* every single redirection x every command kind, no limit
-    [] c = "q1" -> Family({"std", "x35"}, BOOLEAN, {NoLimit}, AllKinds, TRUE, Seq1(Full1) \cup {<<>>})
-                   \cup Family({"full", "int"}, {FALSE}, {NoLimit}, CoreKinds, TRUE,
-                               Seq1(Alpha({0, 1, 3}, AllOps, {"a", "m"}, {1, 4, 10}, AllMisc)))
-                   \cup Fam("resv")
+    [] c = "q1a" -> Family({"std", "x35"}, BOOLEAN, {NoLimit}, AllKinds, TRUE, Seq1(Full1) \cup {<<>>})
+    [] c = "q1b" -> Family({"full", "int"}, {FALSE}, {NoLimit}, CoreKinds, TRUE,
+                           Seq1(Alpha({0, 1, 3}, AllOps, {"a", "m"}, {1, 4, 10}, AllMisc)))
     \* the target itself is a descriptor reserved by the shell (10 = its script file)
     [] c = "resv" -> Family({"int"}, {FALSE}, {NoLimit}, CoreKinds, FALSE,
                            Seq1(Alpha({10}, {"in", "out", "dupout"}, {"a"}, {1}, {"closeout", "here"})))
     \* single redirections under every descriptor limit
     [] c = "q2" -> Family(All4, {FALSE}, 0 .. 13, {"builtin", "exec", "empty"}, FALSE, Seq1(Lim1))
     \* pairs, no limit
-    [] c = "q3" -> Family({"std", "x35"}, BOOLEAN, {NoLimit}, CoreKinds, FALSE, Seq2(Small, Small))
-    \* pairs under the limits where the first / the second saved copy does not fit
-    [] c = "q4" -> Family({"std", "int"}, {FALSE}, {11, 12}, {"builtin", "exec", "empty"}, FALSE,
+    [] c = "q3" -> Family({"std", "x35"}, BOOLEAN, {NoLimit}, CoreKinds \cup {"function"}, FALSE,
                           Seq2(Small, Small))
-    [] c = "quick" -> Fam("q1") \cup Fam("q2") \cup Fam("q3") \cup Fam("q4")
+    \* pairs under the limits where the first / the second saved copy does not fit
+    [] c = "q4" -> Family({"std", "int"}, {FALSE}, {10, 11, 12}, {"builtin", "exec", "empty"}, FALSE,
+                          Seq2(Small, Small))
     \* a small family that exercises every action (run with -coverage)
     [] c = "cov" -> Family({"int"}, BOOLEAN, {NoLimit, 11}, AllKinds, TRUE,
                           Seq1(Alpha({1}, AllOps, {"a", "m", "d", "t"}, {1, 4, 10}, AllMisc))
                           \cup {<<R(1, "out", "m", -1), R(1, "app", "a", -1)>>, <<>>})
     \* thorough --------------------------------------------------------------
-    [] c = "t1" -> Fam("resv") \cup Family(All4, BOOLEAN, {NoLimit}, AllKinds, TRUE, Seq1(Full1) \cup {<<>>})
-                   \cup Family(All4, {FALSE}, {3, 4, 5, 9, 10, 11, 12, 13}, AllKinds, FALSE, Seq1(Full1))
-    [] c = "t2" -> Family({"std", "x35"}, BOOLEAN, {NoLimit}, {"builtin", "special", "exec"}, FALSE,
+    [] c = "t1a" -> Family(All4, BOOLEAN, {NoLimit}, AllKinds, TRUE, Seq1(Full1) \cup {<<>>})
+    [] c = "t1b" -> Family(All4, {FALSE}, 0 .. 13, AllKinds, FALSE, Seq1(Full1))
+    [] c = "t2" -> Family({"std", "x35"}, BOOLEAN, {NoLimit}, CoreKinds \cup {"function"}, FALSE,
                           Seq2(Mid, Mid))
-    [] c = "t3" -> Family({"std", "x35", "int"}, {FALSE}, {10, 11, 12, 13}, {"builtin", "exec", "empty"}, FALSE,
-                          Seq2(Small, Small))
-    \* the limit family again, for the model check with Sim = FALSE (no replay)
-    [] c = "posix" -> Fam("q2") \cup Fam("q4")
-    [] c = "t4" -> Family({"std"}, {FALSE}, {NoLimit}, {"builtin", "exec"}, FALSE,
+    [] c = "t3" -> Family(All4, {FALSE}, 3 .. 13, CoreKinds, FALSE, Seq2(Small, Small))
+    [] c = "t4" -> Family({"std", "x35"}, {FALSE}, {NoLimit}, {"builtin", "exec"}, FALSE,
                           Seq3(Small, Small, Small))
-    [] c = "thorough" -> Fam("t1") \cup Fam("t2") \cup Fam("t3") \cup Fam("t4")
+    [] c = "t5" -> Family({"std"}, {FALSE}, {12}, {"builtin"}, FALSE, Seq3(Small, Small, Small))
 
-Scenarios == Fam(Cfg)
+\* the families of a configuration
+Parts(c) ==
+  CASE c = "quick"    -> {"q1a", "q1b", "resv", "q2", "q3", "q4"}
+    [] c = "thorough" -> {"t1a", "t1b", "resv", "t2", "t3", "t4", "t5"}
+    \* the limit families again, for the model check with Sim = FALSE (no replay)
+    [] c = "posix"    -> {"q2", "q4"}
+    [] OTHER          -> {c}
+
 
 -----------------------------------------------------------------------------
 Runs(kind)   == kind \in {"special", "builtin", "function", "group", "subshell"}
@@ -169,7 +173,7 @@ Tok(f)  == CASE f = 0 -> "c0" [] f = 1 -> "c1" [] f = 2 -> "c2" [] f = 3 -> "c3"
 \* A command without a name applies its list in a subshell: a copy of the
 \* descriptor table (same open file descriptions), same limit, same files.
 Init ==
-  /\ sc \in Scenarios
+  /\ \E f \in Parts(Cfg) : sc \in Fam(f)
   /\ k = K0(sc)
   /\ pc = IF Len(sc.list) = 0 THEN "exec" ELSE "check"
   /\ i = 1 /\ saved = <<>> /\ cur = -1 /\ spec = [own |-> FALSE, fd |-> -1]
